@@ -117,7 +117,9 @@ func VerifHarness_C15_DefaultOutputFile() {
 	for i := 0; i < len(file); i++ {
 		verifAssume(file[i] != '/' && file[i] != 0)
 	}
-	got := defaultOutputFile("/work/pkg/" + file)
+	// the result depends on the file name only, not on where the file lives
+	dir := []string{"/work/pkg/", "/src/nats.go/conv/", "/home/u.gen/x.golang/", ""}[nondetChoice("directory", 4)]
+	got := defaultOutputFile(dir + file)
 	last := -1
 	for i := 0; i < len(file); i++ {
 		if file[i] == '.' {
